@@ -58,20 +58,33 @@ theorem grammar_accepts_numpy (s : Spelling) (d : NpyDict) (es : List (List Char
     (hq : s.q = '\'' ∨ s.q = '"') (hperm : es.Perm (s.entries d))
     (hne : d.shape ≠ []) (hb : ∀ v ∈ d.shape, v < 2 ^ 64) :
     parseNpyDict (s.render es ++ rest) = some d := by
-  sorry
+  have hj : ∀ l : List (List Char), joinChars s.comma l = joinG s.comma l := by
+    intro l
+    induction l with
+    | nil => rfl
+    | cons a l ih => cases l with
+      | nil => rfl
+      | cons b l => show a ++ _ ++ joinChars _ (b :: l) = a ++ _ ++ joinG _ (b :: l); rw [ih]
+  have hr : s.render es = renderG s.beforeComma s.afterComma s.trailing s.lead s.trail es := by
+    unfold Spelling.render renderG; rw [hj]; rfl
+  have hc : EndianOf (endianChar d.endian) d.endian := by
+    unfold EndianOf endianChar; cases d.endian <;> simp
+  rw [hr]
+  exact parse_renderG s.q hq s.beforeColon s.afterColon s.beforeComma s.afterComma s.trailing s.tupleTrailing
+    s.lead s.trail (endianChar d.endian) d hc es rest hperm hne hb
 
 /-- `|` is accepted as a synonym of `<` (numpy spells one-byte types `|i1`, `|u1`). -/
 theorem bar_is_little (t : NpyTy) (r : List Char) :
-    pDescrValue ("'|".toList ++ t.name ++ '\'' :: r) = some ((.little, t), r) := by
-  sorry
+    pDescrValue ("'|".toList ++ t.name ++ '\'' :: r) = some ((.little, t), r) :=
+  pDescrValue_hit '\'' (Or.inl rfl) '|' .little t (Or.inl ⟨Or.inr rfl, rfl⟩) r
 
 /-- unsupported_descr_rejected: a quoted descr is accepted iff it is one byte-order character followed by exactly one of
     the ten supported type names (f2, b1, c8, c16, U…, O, structured dtypes … have no alternative in the grammar). -/
 theorem descr_accepted_iff (body r : List Char) (e : Endian) (t : NpyTy)
     (hbody : body ≠ [] ∧ ∀ c ∈ body, c ≠ '\'') :
     pDescrValue ('\'' :: body ++ '\'' :: r) = some ((e, t), r) ↔
-      ∃ c, body = c :: t.name ∧ ((c = '<' ∨ c = '|') ∧ e = .little ∨ c = '>' ∧ e = .big) := by
-  sorry
+      ∃ c, body = c :: t.name ∧ ((c = '<' ∨ c = '|') ∧ e = .little ∨ c = '>' ∧ e = .big) :=
+  pDescrValue_eq_some_iff '\'' (Or.inl rfl) body r e t hbody.1 hbody.2
 
 /-! non-vacuity -/
 example : (⟨'"', 2, 0, 1, 3, false, true, 1, 2⟩ : Spelling).render
